@@ -622,6 +622,7 @@ def sem_unary(m: Ref, mn: str, ops: List[Tuple[Any, ...]]) -> None:
 
 
 def _bcd_add(a: int, b: int, cin: int) -> Tuple[int, int]:
+    """Packed-BCD addition of two valid BCD bytes: decimal digit-wise with carry."""
     lo = (a & 15) + (b & 15) + cin
     c1 = 0
     if lo > 9:
@@ -699,6 +700,8 @@ def sem_multibyte(m: Ref, mn: str, ops: List[Tuple[Any, ...]]) -> None:
         if bcd:
             if not (_bcd_ok(a) and _bcd_ok(b)):
                 raise Skip("operand is not packed BCD")
+            if (not sub and (a & 15) + (b & 15) + c > 9) or (sub and (a & 15) - (b & 15) - c < 0):
+                m.nt.append("bcd-half-carry")
             r, c = (_bcd_sub(a, b, c) if sub else _bcd_add(a, b, c))
         else:
             if b + c > 0xFF and "b+Cin wraps in some byte" not in m.tags:
